@@ -79,7 +79,7 @@ partial def parsePyExpr : List String → Option (Chartparse.Py.Expr × List Str
   | "int" :: n :: r => some (.int n.toInt!, r)
   | "var" :: x :: r => some (.var x, r)
   | "bin" :: op :: r =>
-    let o : Option Chartparse.Py.BinOp := match op with | "add" => some .add | "sub" => some .sub | "mul" => some .mul | "truediv" => some .truediv | _ => none
+    let o : Option Chartparse.Py.BinOp := match op with | "add" => some .add | "sub" => some .sub | "mul" => some .mul | "truediv" => some .truediv | "pow" => some .pow | _ => none
     match o, parsePyExpr r with
     | some o, some (a, r1) => match parsePyExpr r1 with | some (b, r2) => some (.bin o a b, r2) | none => none
     | _, _ => none
@@ -98,6 +98,12 @@ partial def parsePyExpr : List String → Option (Chartparse.Py.Expr × List Str
   | "tdsec" :: r => (parsePyExpr r).map fun (a, r1) => (.tdSeconds a, r1)
   | "isfloat" :: r => (parsePyExpr r).map fun (a, r1) => (.isFloat a, r1)
   | "istd" :: r => (parsePyExpr r).map fun (a, r1) => (.isTd a, r1)
+  | "ifexp" :: r =>
+    match parsePyExpr r with
+    | some (c, r1) => match parsePyExpr r1 with
+      | some (a, r2) => match parsePyExpr r2 with | some (b, r3) => some (.ifExp c a b, r3) | none => none
+      | none => none
+    | none => none
   | "pair" :: r =>
     match parsePyExpr r with
     | some (a, r1) => match parsePyExpr r1 with | some (b, r2) => some (.pair a b, r2) | none => none
@@ -127,6 +133,10 @@ def runLeaf (name : String) (args : List String) : String :=
   | "tsat", [res, tick, start, ticks, bpms, stamps] =>
     showPy (evalBodyC timestampAtTickCalls [("tick", tick), ("start_iteration_index", start), ("self.resolution", res),
       ("self.events[].tick", ticks), ("self.events[].bpm", bpms), ("self.events[].timestamp", stamps)] timestampAtTick)
+  | "tslower", [l] => showPy (valueOf [("data.lower", l)] tsLower "lower_numeral")
+  | "bpmstep", [res, t, pt, pb, pts, idx] =>
+    showPy (valueOfC bpmStepCalls [("data.tick", t), ("prev_event.tick", pt), ("prev_event.bpm", pb), ("prev_event.timestamp", pts),
+      ("resolution", res), ("prev_event._proximal_bpm_event_index", idx)] bpmStep "timestamp")
   | _, _ => "bad-leaf"
 
 def parseWant (s : String) : Option (List (Nat × Nat)) :=
